@@ -229,7 +229,7 @@ def run(chk):
                 "sequence nodes; grammar correspondence: per translated head, generated and mutated argument lists")
     if ok:
         try:
-            grammar_correspondence(chk, hy, 40 if thorough else 8)
+            grammar_correspondence(chk, hy, 40 if thorough else 6)
         except Exception as e:
             chk.obligation("grammar correspondence ran", False, str(e)[-1500:])
         try:
@@ -240,7 +240,7 @@ def run(chk):
         except Exception as e:
             chk.obligation("handler correspondence ran", False, str(e)[-1500:])
     corpus_first(chk, hy)
-    run_oracle(chk, 900000 if thorough else 24000, 8 if thorough else 6)
+    run_oracle(chk, 900000 if thorough else 18000, 8 if thorough else 6)
 
 
 def replay(path):
